@@ -313,6 +313,11 @@ impl super::BitVector for BitVector<'_> {
     }
 
     fn rank(&self, index: usize) -> Option<usize> {
+        if index > 0 && index == self.len() {
+            // One past the last bit can be one past the last block:  count through the last bit.
+            let (bit, rank) = self.access_rank(index - 1)?;
+            return Some(rank + bit as usize);
+        }
         Some(self.access_rank(index)?.1)
     }
 
